@@ -34,6 +34,8 @@ KINDS = ["acl", "rl", "jwt", "basic", "imtls", "emtls", "oidc", "apikey", "waf"]
 MODES = {"acl": [], "rl": [], "jwt": ["secret-missing", "secret-invalid", "secret-wrongtype"], "basic": ["secret-missing", "secret-invalid", "secret-wrongtype"],
          "imtls": ["secret-missing", "secret-invalid", "secret-wrongtype"], "emtls": ["secret-missing", "secret-invalid", "secret-wrongtype", "dep2-missing", "dep2-invalid", "dep2-wrongtype"],
          "oidc": ["secret-missing", "secret-invalid", "secret-wrongtype"], "apikey": ["secret-missing", "secret-invalid", "secret-wrongtype"], "waf": ["ap-missing", "aplog-missing"]}
+WAF_VARIANTS = ["pl", "p", "b", "bl", "bg", "plg", "pgl", "bll", "po", "bo"]
+WAF_DEP_MODE = [("p", "ap-missing"), ("l", "aplog-missing"), ("o", "aplog-missing"), ("b", "bundle-missing"), ("g", "logbundle-missing")]
 FUNCS = ["internal/configs/ingress.go:generateJWTConfig", "internal/configs/ingress.go:generateBasicAuthConfig", "internal/configs/virtualserver.go:virtualServerConfigurator.generatePolicies", "internal/configs/virtualserver.go:policiesCfg.addJWTAuthConfig",
          "internal/configs/virtualserver.go:policiesCfg.addBasicAuthConfig", "internal/configs/virtualserver.go:policiesCfg.addIngressMTLSConfig",
          "internal/configs/virtualserver.go:policiesCfg.addEgressMTLSConfig", "internal/configs/virtualserver.go:policiesCfg.addOIDCConfig",
@@ -72,6 +74,19 @@ def gen(rng, tier):
                 for mode in modes:
                     for nb in ("none", "before", "after", "both"):
                         for shape in ("pass", "splits", "matches"):
+                            if kind == "waf":
+                                # every shape of a WAF policy (policy or bundle; log configuration, log bundle, the deprecated single
+                                # securityLog, several logs) x each of its dependencies missing: addWAFConfig goes on after most failures
+                                if shape != "pass" and tier == "quick":
+                                    continue
+                                for variant in WAF_VARIANTS:
+                                    wmodes = ["ok", "policy-missing"] + [m for c, m in WAF_DEP_MODE if c in variant]
+                                    for wmode in dict.fromkeys(wmodes):
+                                        if wmode != mode and not (mode == "ok" and wmode not in modes):
+                                            continue
+                                        cases.append(dict(line="fc plus=%d kind=waf scope=%s mode=%s nb=%s shape=%s waf=%s" % (plus, scope, wmode, nb, shape, variant),
+                                                          tags=["policy", kind, scope, wmode, "waf-" + variant], nontrivial=wmode != "ok"))
+                                continue
                             if tier == "quick" and (len(kind) + len(scope) + len(mode) + len(nb) + len(shape) + plus) % 3:
                                 continue
                             cases.append(dict(line="fc plus=%d kind=%s scope=%s mode=%s nb=%s shape=%s" % (plus, kind, scope, mode, nb, shape),
